@@ -45,6 +45,9 @@ pub enum Body {
     /// compute without yielding until released (auto-release after 150 ms), then suspend
     /// for that many ms, then return
     GateSpinThenDelay(u8),
+    /// join (with that timeout) the task submitted `back + 1` places earlier, from inside this
+    /// task: the waiter is a pool coroutine and helps with the queue while it waits
+    JoinEarlier { back: u8, timeout_ms: u16 },
 }
 
 #[derive(Debug, Clone, Copy, Serialize, Deserialize, PartialEq)]
@@ -109,6 +112,9 @@ static HOLD_WAITER: Mutex<Option<HashMap<u64, Arc<TaskRec>>>> = Mutex::new(None)
 /// task id -> park ms, for cancellers
 static HOLD_CANCEL: Mutex<Option<HashMap<u64, (u64, Arc<TaskRec>)>>> = Mutex::new(None);
 static CANCEL_PARKED: AtomicU64 = AtomicU64::new(0);
+/// the handles of all submitted tasks (for joins made from inside a task) and their records
+static HANDLES: Mutex<Option<Arc<Handles>>> = Mutex::new(None);
+static IN_TASK_JOINS: Mutex<Vec<Value>> = Mutex::new(Vec::new());
 static WAITER_HELD: AtomicU64 = AtomicU64::new(0);
 
 fn handler(name: &'static str, a: u64, _b: u64) {
@@ -212,6 +218,25 @@ fn run_body(rec: &Arc<TaskRec>) -> Option<usize> {
                 s.delay(Duration::from_millis(u64::from(ms)));
             }
         }
+        Body::JoinEarlier { back, timeout_ms } => {
+            if k > 0 {
+                let target = k - 1 - usize::from(back) % k;
+                let h = HANDLES.lock().unwrap().as_ref().and_then(|hs| hs.lock().unwrap().get(target).cloned().flatten());
+                if let Some(h) = h {
+                    let called = now();
+                    let r = h.timeout_join(Duration::from_millis(u64::from(timeout_ms)));
+                    let returned = now();
+                    let outcome = match r {
+                        Ok(Ok(Some(v))) => json!({"kind":"value","v":v}),
+                        Ok(Ok(None)) => json!({"kind":"none"}),
+                        Ok(Err(m)) => json!({"kind":"error","m":m}),
+                        Err(e) if e.kind() == std::io::ErrorKind::TimedOut => json!({"kind":"timeout"}),
+                        Err(e) => json!({"kind":"io","m":e.to_string()}),
+                    };
+                    IN_TASK_JOINS.lock().unwrap().push(json!({"task":target,"op":format!("body-of-task-{k}"),"called":called.to_string(),"returned":returned.to_string(),"timeout_ms":timeout_ms,"late":false,"held":false,"in_task":true,"outcome":outcome}));
+                }
+            }
+        }
     }
     finish(rec);
     Some(expected_value(k))
@@ -277,6 +302,7 @@ pub fn child_main() -> i32 {
     *HOLD_CANCEL.lock().unwrap() = Some(HashMap::new());
     open_coroutine_core::verif::set_handler(Some(handler));
     let handles: Arc<Handles> = Arc::new(Handles(Mutex::new(Vec::new())));
+    *HANDLES.lock().unwrap() = Some(handles.clone());
     let joins: Arc<Mutex<Vec<Value>>> = Arc::new(Mutex::new(Vec::new()));
     let mut join_threads = vec![];
     let mut cancels: Vec<Value> = vec![];
@@ -478,6 +504,7 @@ pub fn child_main() -> i32 {
         std::thread::sleep(Duration::from_secs(600));
     }
     child::emit(json!({"ev":"done","k":"epilogue"}));
+    joins.lock().unwrap().append(&mut IN_TASK_JOINS.lock().unwrap());
     child::emit(json!({"ev":"result","tasks":tasks,"joins":*joins.lock().unwrap(),"cancels":cancels,"sentinels_ran":sent.load(Ordering::SeqCst),"sentinels":nsent,"host_calm":host_calm,
         "waiter_held":WAITER_HELD.load(Ordering::SeqCst),"cancel_parked":CANCEL_PARKED.load(Ordering::SeqCst)}));
     let _ = keep;
@@ -508,6 +535,8 @@ pub struct JoinLog {
     pub timeout_ms: u64,
     pub late: bool,
     pub held: bool,
+    /// the join was made from inside a task (the waiter is a pool coroutine)
+    pub in_task: bool,
     /// value / none / error / timeout / io
     pub kind: String,
     pub v: Option<u64>,
@@ -601,6 +630,7 @@ pub fn run_case(c: &Case, timeout: Duration) -> Run {
                     returned: u(&j["returned"]),
                     timeout_ms: j["timeout_ms"].as_u64().unwrap_or(0),
                     late: j["late"].as_bool().unwrap_or(false),
+                    in_task: j["in_task"].as_bool().unwrap_or(false),
                     held: j["held"].as_bool().unwrap_or(false),
                     kind: j["outcome"]["kind"].as_str().unwrap_or("").to_string(),
                     v: j["outcome"]["v"].as_u64(),
